@@ -205,6 +205,10 @@ def check(run):
                             'child walk under ASan+UBSan; PAIR: each tree against a single-node perturbation (operator, atom, operand order), against its fully parenthesised spelling, pairs that differ only in the field a dot selects, in nine contexts, and pairs that differ only in a constant by one unit in the last place (or by less than any fixed epsilon); '
                             'the extracted Coq equal/subst/clone run on the same dumped trees and must give the implementation\'s answers' % len(QUERIES),
                        samples=samples, laws_cases=nlaws, query_trees=nq, equal_pairs=npairs, model_cases=len(model_in))
+    # substitution inside types (type_t::subst, reached through the members of instantiated processes): every parameter occurrence in the bounds and sizes of plain,
+    # record, array, nested and function types is replaced, nothing else (the correspondence of C07 with DotModel.v, without its process-set probes)
+    from props import C07
+    run.cov['type_substitution'] = C07.qualified(run, run.tier == 'thorough', process_sets=False)
     run.cov['trusted_base'] += ['hand model ExprLaws.v of clone_deeper/subst/equal (tied by running the extracted functions on the implementation\'s dumped trees)',
                                 'tools/gen_prec.py reader of get_size; node identity observed through expression_t::operator== (pointer equality)',
                                 'ASan/UBSan flavour of the library for out-of-range child access', 'utapdump LAWS/PAIR/QLAWS']
